@@ -287,6 +287,10 @@ impl img::DiskImage for Dot2mg {
         self.raw_img.get_track_buf(cyl, head)
     }
     fn set_track_buf(&mut self,cyl: usize,head: usize,dat: &[u8]) -> STDRESULT {
+        if self.header.flags[3]>127 {
+            error!("2MG disk is write protected");
+            return Err(Box::new(img::Error::SectorAccess));
+        }
         self.raw_img.set_track_buf(cyl, head, dat)
     }
     fn get_track_solution(&mut self,trk: usize) -> Result<Option<img::TrackSolution>,DYNERR> {        
